@@ -338,7 +338,11 @@ def c03(obs, act, viols, probes):
     obs.extra['runif_reeval'] = runif_reevaluated(obs)
   if obs.extra['runif_reeval'] is not None:
     return
-  variants, npoints = model_mod.abort_variants(obs.spec) if ab else ({tuple(obs.model.invocations)}, 0)
+  origins = {}
+  if ab:
+    variants, npoints, origins = model_mod.abort_variants(obs.spec, with_origins=True)
+  else:
+    variants, npoints = {tuple(obs.model.invocations)}, 0
   actual = tuple(act.invocations)
   roles = phase_roles(obs.spec)
   if ab:
@@ -362,8 +366,28 @@ def c03(obs, act, viols, probes):
         probes['abort_during_teardown_phase'] = probes.get('abort_during_teardown_phase', 0) + 1
       else:
         probes['abort_during_abortable_phase'] = probes.get('abort_during_abortable_phase', 0) + 1
-  if actual not in variants:
-    close = _closest(actual, variants)
+  consistent = actual in variants
+  if consistent and ab and origins.get(actual):
+    # a variant in which the abort killed invocation X explains the run only if X's record really
+    # says "killed": an abort that arrives after the last setup phase has completed with its own
+    # result does not make the group "not entered"
+    ac0 = first_seq(obs.log, 'abort_call') or first_seq(obs.log, 'sigint_delivered')
+    consistent = False
+    for (kind_, killed) in origins[actual]:
+      if kind_ != 'body' or killed is None or ac0 is None:
+        consistent = True
+        break
+      # (judged by the phase record: a monitored phase, say, is still inside its wrapper after
+      # the inner body returned and can legitimately be killed there)
+      recs = [p for p in act.phases if p[0] == killed[0]]
+      r = recs[killed[1] - 1] if len(recs) >= killed[1] else None
+      if r is None or r[3] in ('KILLED', 'TIMEOUT', 'NORESULT'):
+        consistent = True
+        break
+    if not consistent:
+      probes['abort_after_body_end_needed_other_variant'] = 1
+  if not consistent:
+    close = _closest(actual, variants - ({actual} if actual in variants else set()) or variants)
     missing = [x for x in close if x not in actual]
     extra = [x for x in actual if x not in close]
     kind = 'other'
